@@ -32,9 +32,8 @@ def container_rules(r, vecs=(), idxs=()):
     for a in idxs:
         r.sub("container-size:" + a, r"\b%s\.size\(\)" % a, a + "->n", None, 0)
         r.sub("container-index:" + a, r"\b%s\[" % a, a + "->d[", None, 0)
-    for v in vecs:
-        r.sub("container-size:" + v, r"\b%s\.size\(\)" % v, v + "->n", None, 0)
-        r.sub("container-index:" + v, r"\b%s\[" % v, v + "->d[", None, 0)
+    for v in vecs:      # Vector v -> its contiguous data pointer `Real* v` (v[i] as is) + length v_n
+        r.sub("container-size:" + v, r"\b%s\.size\(\)" % v, v + "_n", None, 0)
 
 
 def build_unit(ctx):
@@ -69,22 +68,26 @@ def build_unit(ctx):
 
     def x_bv(r):
         r.sub("scope-flatten", r"ImpulseSolver::", "", 2)
-        r.lit("symbolic-quotient+libm->trusted-lemma", "std::sqrt(maxLen2/piNorm2)", "vf_sqrt_ratio(maxLen2,piNorm2)", 1)
-        r.lit("symbolic-product->trusted-lemma", "pi[IV[i]] *= scale", "pi[IV[i]] = vf_scale(pi[IV[i]], scale)", 1)
+        r.sub("symbolic-quotient+libm->trusted-lemma", r"std::sqrt\((\w+)\s*/\s*(\w+)\)", r"vf_sqrt_ratio(\1,\2)", 1)
+        r.sub("symbolic-product->trusted-lemma", r"\b(pi\[\w+\[\w+\]\]) \*= (\w+)", r"\1 = vf_scale(\1, \2)", 1)
         r.sub("symbolic-product->trusted-lemma", r"\bsquare\(", "vf_sq(", 2)
         container_rules(r, vecs=["pi"], idxs=["IV"])
     fn(r"ImpulseSolver::FricCond\s*boundVector\(Real maxLen, const Array_<MultiplierIndex>& IV, Vector& pi\)\s*", "boundVector",
-       "enum FricCond boundVector(Real maxLen, const struct IdxArray* IV, struct Vec* pi)", x_bv)
+       "enum FricCond boundVector(Real maxLen, const struct IdxArray* IV, Real* pi)", x_bv)
 
     def x_bf(r):
         r.sub("scope-flatten", r"ImpulseSolver::", "", 2)
-        r.lit("symbolic-quotient+libm->trusted-lemma", "std::sqrt(mu2N2/F2)", "vf_sqrt_ratio(mu2N2,F2)", 1)
-        r.lit("symbolic-product->trusted-lemma", "pi[IF[i]] *= scale", "pi[IF[i]] = vf_scale(pi[IF[i]], scale)", 1)
-        r.lit("symbolic-product->trusted-lemma", "mu*mu*N2", "vf_mul(vf_mul(mu,mu),N2)", 1)
+        r.sub("symbolic-quotient+libm->trusted-lemma", r"std::sqrt\((\w+)\s*/\s*(\w+)\)", r"vf_sqrt_ratio(\1,\2)", 1)
+        r.sub("symbolic-product->trusted-lemma", r"\b(pi\[\w+\[\w+\]\]) \*= (\w+)", r"\1 = vf_scale(\1, \2)", 1)
+        n0 = len(r.log)
+        r.sub("symbolic-product->trusted-lemma (a*b*c)", r"= (\w+)\*(\w+)\*(\w+);", r"= vf_mul(vf_mul(\1,\2),\3);", None, 0)
+        r.sub("symbolic-product->trusted-lemma (a*b)", r"= (\w+)\*(\w+);", r"= vf_mul(\1,\2);", None, 0)
+        if sum(e["hits"] for e in r.log[n0:]) != 1:
+            raise ExtractionError("boundFriction: expected exactly one product initialiser (mu*mu*N2)")
         r.sub("symbolic-product->trusted-lemma", r"\bsquare\(", "vf_sq(", 2)
         container_rules(r, vecs=["pi"], idxs=["IN", "IF"])
     fn(r"ImpulseSolver::FricCond\s*boundFriction\(Real mu,\s*const Array_<int>& IN,\s*const Array_<int>& IF,\s*Vector& pi\)\s*", "boundFriction",
-       "enum FricCond boundFriction(Real mu, const struct IdxArray* IN, const struct IdxArray* IF, struct Vec* pi)", x_bf)
+       "enum FricCond boundFriction(Real mu, const struct IdxArray* IN, const struct IdxArray* IF, Real* pi)", x_bf)
 
     def x_up(r):
         r.lit("container-access->contracted stub", "A(row,row)", "Mat_get(A,row,row)", 1)
@@ -93,7 +96,7 @@ def build_unit(ctx):
         r.sub("symbolic-product->trusted-lemma", r"\bsquare\(", "vf_sq(", 1)
         container_rules(r, vecs=["pi", "D", "rhs"])
     fn(r"inline Real doUpdate\(const MultiplierIndex& row,\s*const Matrix&\s*A,\s*const Vector&\s*D,\s*const Vector&\s*rhs,\s*const Real&\s*SOR,\s*const Real&\s*rowSum,\s*Vector&\s*pi\)\s*",
-       "doUpdate", "Real doUpdate(MultiplierIndex row, const struct Mat* A, const struct Vec* D, const struct Vec* rhs, Real SOR, Real rowSum, struct Vec* pi)", x_up)
+       "doUpdate", "Real doUpdate(MultiplierIndex row, const struct Mat* A, const Real* D, int D_n, const Real* rhs, Real SOR, Real rowSum, Real* pi)", x_up)
 
     def x_ups(r):
         r.lit("container-access->contracted stub", "A(row,row)", "Mat_get(A,row,row)", 1)
@@ -104,36 +107,170 @@ def build_unit(ctx):
         r.lit("container-access->contracted stub", "rowSums[i]", "RealArray_get(rowSums,i)", 1)
         container_rules(r, vecs=["pi", "D", "rhs"], idxs=["rows"])
     fn(r"Real doUpdates\(const Array_<int>& rows,\s*const Matrix&\s*A,\s*const Vector&\s*D,\s*const Vector&\s*rhs,\s*const Real&\s*SOR,\s*const Array_<Real>&\s*rowSums,\s*Vector&\s*pi\)\s*",
-       "doUpdates", "Real doUpdates(const struct IdxArray* rows, const struct Mat* A, const struct Vec* D, const struct Vec* rhs, Real SOR, const struct RealArray* rowSums, struct Vec* pi)", x_ups)
+       "doUpdates", "Real doUpdates(const struct IdxArray* rows, const struct Mat* A, const Real* D, int D_n, const Real* rhs, Real SOR, const struct RealArray* rowSums, Real* pi)", x_ups)
 
     parts.append('#include "%s/pgs_harness.h"\n' % SPEC)
     path = os.path.join(ctx.out, "pgs_unit.c")
     open(path, "w").write("\n".join(parts))
+    return path, parts[1]
+
+
+def build_sweep_unit(ctx, enums_text):
+    """The body of one PGS iteration (all constraint-kind blocks) cut from PGSImpulseSolver::solve."""
+    parts = ['#define SWEEP_GHOST 1\n#include "%s/pgs_pre.h"\n' % SPEC, enums_text,
+             '#include "%s/pgs_contracts.h"\n#include "%s/pgs_sweep.h"\n' % (SPEC, SPEC)]
+    c = cut_function(IMP_H, r"bool hasFriction\(\) const\s*", "UniContactRT::hasFriction", expect_total=1)
+    r = Rewriter("{" + c.body + "}", "UniContactRT::hasFriction")
+    r.lit("container-access", "m_Fk.empty()", "(self->m_Fk.n == 0)", 1)
+    ctx.add_function(IMP_H, "ImpulseSolver::UniContactRT::hasFriction", c.start, c.end, c.text, "M2", r.dropped, r.log)
+    parts.append("static bool UniContactRT_hasFriction(const struct UniContactRT* self)\n" + r.text + "\n")
+
+    c = cut_region(PGS_CPP, r"Real sum2all = 0, sum2enf = 0;", r"normRMSall = std::sqrt\(sum2all/p\);", "PGSImpulseSolver::solve#sweep")
+    r = Rewriter(c.body, "PGSImpulseSolver::solve#sweep")
+    r.drop("convergence bookkeeping (not part of the sweep lemma)", r"prevNormRMSenf = normRMSenf;", "", 1)
+    r.sub("implicit-this-call", r"\brt\.hasFriction\(\)", "UniContactRT_hasFriction(rt)", 1)
+    r.sub("reference->pointer (element of RT array)", r"(?:const )?(\w+RT)& rt = (\w+)\[k\];", r"struct \1* rt = &\2[k];", 6)
+    r.sub("reference->pointer (index set)", r"const Array_<(?:MultiplierIndex|int)>& (\w+) = rt\.(\w+);", r"const struct IdxArray* \1 = &rt.\2;", 4)
+    r.sub("reference-argument", r"\(participating,rt\.m_mults,", "(participating,&rt.m_mults,", 1)
+    r.sub("reference-argument", r"doUpdates\(rt\.m_mults,", "doUpdates(&rt.m_mults,", 1)
+    # zero hits allowed: a sweep that lost its projection call must reach the verifier (S1/S3 fail), not stop here
+    r.sub("reference-argument", r"boundUnilateral\(([^,()]+), (pi\[\w+\])\)", r"boundUnilateral(\1, &\2)", None, 0)
+    r.sub("reference-argument", r"boundScalar\(([^,()]+), (pi\[\w+\]), ([^,()]+)\)", r"boundScalar(\1, &\2, \3)", None, 0)
+    r.sub("symbolic-product->trusted-lemma", r"rt\.m_effMu\*(N|rt\.m_knownN)\b", r"vf_mul(rt.m_effMu,\1)", 2)
+    r.sub("member-of-pointer", r"\brt\.", "rt->", None, 20)
+    r.sub("std::abs", r"std::abs\(", "fabs(", 1)
+    r.sub("container-size passed with Vector D", r",A,D,", ",A,D,D_n,", 12)
+    ctx.add_function(PGS_CPP, "PGSImpulseSolver::solve (body of one PGS iteration)", c.start, c.end, c.text, "M2", r.dropped, r.log)
+    parts.append("""void pgs_sweep(const struct BigIdxArray* participating, const struct Mat* A, const Real* D, int D_n,
+               const Real* piExpand, const Real* verrStart, Real* pi,
+               struct UncondRT* unconditional, int mUncond, struct UniContactRT* uniContact, int mUniCont,
+               struct BoundedRT* bounded, int mBounded, struct StateLtdFrictionRT* stateLtdFriction, int mStateLtd,
+               struct ConstraintLtdFrictionRT* consLtdFriction, int mConsLtd, Real sor, struct RealArray* rowSums)
+{
+""" + r.text + "\n}\n")
+    parts.append('#include "%s/pgs_sweep_harness.h"\n' % SPEC)
+    path = os.path.join(ctx.out, "pgs_sweep_unit.c")
+    open(path, "w").write("\n".join(parts))
     return path
 
 
-CHK = ["--bounds-check", "--pointer-check", "--div-by-zero-check", "--signed-overflow-check", "--unwind", "8", "--unwinding-assertions", "--object-bits", "10"]
+INCL = "__CPROVER_contracts_write_set_check_assigns_clause_inclusion.0:8"   # dfcc library loop over a callee's assigns targets
+CHK = ["--bounds-check", "--pointer-check", "--div-by-zero-check", "--signed-overflow-check", "--unwinding-assertions", "--object-bits", "10",
+       "--unwindset", INCL]
 LEMMAS = ["vf_sq", "vf_mul", "vf_div", "vf_sqrt_ratio", "vf_scale", "Mat_get", "RealArray_get"]
 
 
 def main(ctx):
     ctx.level = "other"
     try:
-        unit_c = build_unit(ctx)
+        unit_c, enums_text = build_unit(ctx)
+        sweep_c = build_sweep_unit(ctx, enums_text)
     except ExtractionError as e:
         ctx.undecide("extraction: %s" % e)
         return ctx.finish()
     jobs = []
 
-    def K(name, harness, enforce, replace=(), req=(r"postcondition",), minob=5):
+    def K(name, harness, enforce, replace=(), req=(r"postcondition",), minob=5, unwind=4):
         jobs.append(lambda: cbmc_unit(ctx, "pgs." + name, [unit_c], harness, enforce=enforce, replace=list(replace),
-                                      cbmc_args=CHK, require_props=list(req), function=name, timeout=280, min_obligations=minob,
+                                      cbmc_args=CHK + ["--unwind", str(unwind)], require_props=list(req), function=name, timeout=280, min_obligations=minob,
                                       cex_vars=()))
     K("boundUnilateral", "h_boundUnilateral", "boundUnilateral")
     K("boundScalar", "h_boundScalar", "boundScalar")
     K("boundVector", "h_boundVector", "boundVector", LEMMAS)
     K("boundFriction", "h_boundFriction", "boundFriction", LEMMAS)
     K("doUpdate", "h_doUpdate", "doUpdate", LEMMAS)
-    K("doUpdates", "h_doUpdates", "doUpdates", LEMMAS)
+    K("doUpdates", "h_doUpdates", "doUpdates", LEMMAS, unwind=7)
+    jobs.append(lambda: cbmc_unit(ctx, "pgs.sweep", [sweep_c], "h_sweep", no_dfcc=True, cc_args=["-DSWEEP_M_MAX=24"],
+                                  cbmc_args=["--bounds-check", "--pointer-check", "--signed-overflow-check", "--unwind", "7", "--unwinding-assertions"],
+                                  require_props=[r"h_sweep\.assertion", r"boundVector\.assertion", r"boundUnilateral\.assertion"],
+                                  function="PGSImpulseSolver::solve#sweep", timeout=280, min_obligations=20,
+                                  bounded="sweep lemma over the kernel contracts with at most 1 unconditional set, 2 unilateral contacts, 1 bounded, 1 state-limited and 1 constraint-limited friction element, m <= 24"))
+    jobs.append(lambda: cover_unit(ctx, "pgs.sweep.cover", [sweep_c], "h_sweep", cc_args=["-DSWEEP_M_MAX=24", "-DCOVER"], cbmc_args=["--unwind", "7"],
+                                   function="PGSImpulseSolver::solve#sweep (assumptions admit the full configuration)"))
+    # bounded stand-ins with the REAL products on a small integer domain: exact condition code
+    EX = ["--bounds-check", "--pointer-check", "--unwind", "7", "--unwinding-assertions"]
+    jobs.append(lambda: cbmc_unit(ctx, "pgs.boundVector.exact", [unit_c], "h_boundVector_exact", no_dfcc=True, cc_args=["-DEXACT_SQ", "-DEXACT_RANGE=5"],
+                                  cbmc_args=EX, min_obligations=3, require_props=[r"h_boundVector_exact\.assertion"], function="boundVector", timeout=280,
+                                  bounded="real x*x products, integer-valued pi entries in [-5,5], maxLen in [0,10], |IV|<=3 out of 4 entries"))
+    jobs.append(lambda: cbmc_unit(ctx, "pgs.boundFriction.exact", [unit_c], "h_boundFriction_exact", no_dfcc=True, cc_args=["-DEXACT_SQ", "-DEXACT_RANGE=3"],
+                                  cbmc_args=EX, min_obligations=3, require_props=[r"h_boundFriction_exact\.assertion"], function="boundFriction", timeout=280,
+                                  bounded="real products, integer-valued pi entries in [-3,3], mu in {0..3}, fixed index layout IN={0,1,2} IF={3,4,5}, sizes 0..3"))
+    jobs.append(lambda: cone_lemma_z3(ctx))
     parallel(jobs)
-    return ctx.finish()
+
+    ctx.trust("cbmc/goto-cc/goto-instrument 6.11.0 (C front end), MiniSat; z3 for the real-arithmetic cone lemma")
+    ctx.trust("tools/extract.py rule tables (extraction_report.json lists every rewrite and dropped token)")
+    ctx.trust("CBMC's IEEE-754 binary64 model, round-to-nearest-even")
+    ctx.assume("trusted IEEE lemmas (contracts of vf_sq, vf_mul in specs/C44/pgs_pre.h): x*x>=0 for non-NaN x, 0 for x==0, finite for |x|<=1e150; "
+               "a*b not NaN / >=0 for finite (non-negative) operands; used in boundVector, boundFriction, doUpdate(s), sweep")
+    ctx.assume("trusted IEEE lemma vf_sqrt_ratio: for 0<=a<b, a finite: 0 <= sqrt(fl(a/b)) <= 1 (the code comment `0 <= scale < 1`); its precondition is CHECKED at the call site")
+    ctx.assume("trusted IEEE lemma vf_scale: for finite x and 0<=s<=1, fl(x*s) has the sign of x (or is zero) and |fl(x*s)|<=|x|")
+    ctx.assume("abstract views: Vector = contiguous Real* of common length m, Matrix through Mat_get, Array_<MultiplierIndex> = {n,d[6]}; "
+               "friction/normal index sets hold <=3 entries (constructor asserts), UncondRT::m_mults <=6 (comment in PGSImpulseSolver.cpp), entries in use in range and pairwise distinct")
+    ctx.assume("type invariants as preconditions: sign in {+1,-1}, lb<=ub, multipliers not NaN (boundUnilateral/boundScalar) resp. finite (boundVector), 0<=mu<=1e150 and |normal entries|<=1e150 (boundFriction: otherwise mu*mu*N2 can be inf*0)")
+    ctx.assume("sweep lemma: callee behaviour = contract models (assert requires; havoc assigns; assume ensures) in specs/C44/pgs_sweep.h, PRE/POST text shared with the enforced contracts; "
+               "doRowSum/doRowSums assumed read-only except `sums` (const reference parameters); Gauss-Seidel updates ASSUMED to stay <=1e150 in magnitude (well-posed subproblem); "
+               "index sets of different constraints disjoint (partition stated above PGSImpulseSolver::solve); abstract views of the RT structs (fields used by the sweep only)")
+    ctx.not_decided += ["PLUS solver (PLUSImpulseSolver.cpp: active-set logic) - not covered",
+                        "convergence of the PGS iteration, and [A+D]*pi = rhs for unconditional rows (linear solve)",
+                        "constraint-space velocities consistent with the reported condition (verr update after the loop: matrix-vector products)",
+                        "boundVector/boundFriction value clause 'Rolling <=> sum of squares <= limit' for arbitrary doubles: decided only on the small-integer stand-in (recomputing float sums inside a contract needs FP-adder equivalence, which SAT does not finish)",
+                        "cone inequality after scaling in floating point (rounding can exceed the limit by ulps): proved over the reals only (z3 lemma)",
+                        "sweep lemma beyond the stated bound and for index layouts with sets of more elements; UniSpeedRT rows (unused by PGS solve)"]
+    ctx.explanation = ("Proved for all inputs (bit-precise): boundUnilateral never-pull/identity/condition code; boundScalar clamp/nearest bound/condition code; "
+                       "boundVector/boundFriction frame, Rolling=>unchanged, scale computed once under checked 0<=L2<norm2, every component multiplied once by that scale, no growth/sign flip, zero vector never scaled; "
+                       "doUpdate/doUpdates frame. Bounded stand-ins: exact condition code on small integers; sweep lemma S1-S5 over contract models (<=2 contacts). Real-arithmetic lemma: scaled vector lies on the cone.")
+    return ctx.finish(replayer=lambda ob: replay(ctx, ob))
+
+
+def cone_lemma_z3(ctx):
+    """[B] real-arithmetic lemma on the scale expression of the enforced contract: s = sqrt(L2/norm2), norm2 = sum p_j^2 > L2 >= 0
+    ==> sum (p_j*s)^2 == L2 (the scaled friction vector lies exactly on the cone), 0 <= s < 1. Machine arithmetic treated as mathematical."""
+    import time as _t
+    try:
+        import z3
+    except Exception as e:
+        ctx.add(Obligation("pgs.cone_lemma.z3", "pgs.cone_lemma", "z3", "undecided", 0, "z3 bindings not importable: %r" % e))
+        return
+    for n in (1, 2, 3):
+        t0 = _t.time()
+        p = [z3.Real("p%d" % j) for j in range(n)]
+        L2, s = z3.Real("L2"), z3.Real("s")
+        norm2 = sum(x * x for x in p)
+        hyp = z3.And(L2 >= 0, norm2 > L2, s >= 0, s * s * norm2 == L2)      # s = sqrt(L2/norm2)
+        goal = z3.And(sum((x * s) * (x * s) for x in p) == L2, s < 1)
+        sv = z3.Solver(); sv.set("timeout", 60000); sv.add(hyp, z3.Not(goal))
+        r = sv.check()
+        st = {"unsat": "discharged", "sat": "failed"}.get(str(r), "undecided")
+        ctx.add(Obligation("pgs.cone_lemma:scaled_vector_on_cone.n%d" % n, "pgs.cone_lemma", "z3", st, _t.time() - t0,
+                           "lemma over the reals: s=sqrt(L2/||p||^2), ||p||^2>L2>=0 ==> ||s*p||^2 == L2 and 0<=s<1 (n=%d): %s" % (n, r),
+                           function="boundVector/boundFriction"))
+    with ctx.lock:
+        ctx.units.append(dict(unit="pgs.cone_lemma", backend="z3", obligations=3, note="real arithmetic"))
+
+
+_exe = {}
+
+
+def replay(ctx, ob):
+    """Witness search on the real code (native driver including the current PGSImpulseSolver.cpp)."""
+    if "exe" not in _exe:
+        _exe["exe"] = native_build(ctx, "c44_replay", os.path.join(VERIF, "replay/c44_replay.cpp"), libs=True,
+                                   defines=['REPO_PGS_CPP="%s"' % PGS_CPP, "NDEBUG"], extra_inc=[os.path.join(REPO, "Simbody/src")])
+    mode = None
+    for f in ("boundUnilateral", "boundScalar", "boundVector", "boundFriction", "doUpdate", "sweep"):
+        if ("pgs." + f) in ob.unit:
+            mode = f
+    if ob.unit.startswith("pgs.doUpdates"):
+        mode = "doUpdate"
+    if ob.unit.startswith("pgs.cone_lemma"):
+        mode = "boundVector"
+    if mode is None:
+        return {}, None
+    tries = []
+    for seed in (12345, 777):
+        rc, o, e, t = run([_exe["exe"], mode, str(seed)], 120)
+        tries.append(dict(cmd="c44_replay %s %d" % (mode, seed), output=o[-600:]))
+        if "REPRODUCED:" in o:
+            return dict(tries=tries), True
+    return dict(tries=tries), False
